@@ -110,6 +110,10 @@ def test_tree(rep, st, tier, rng, warp=False):
         moments = lambda K: [(b ** (k + 1) - a ** (k + 1)) / (k + 1) for k in range(K + 1)]
         rules = [('simpson', lambda: G.GlobalSimpsonGrid(a=np.array([a]), b=np.array([b]), boundary=True), 1, 'weights'),
                  ('highorder', lambda: G.GlobalHighOrderGrid(a=np.array([a]), b=np.array([b]), boundary=True, max_degree=5), 1, 'weights'),   # the rule chooses its own degree; only constants and linears are demanded
+                 ('highorder-nnls', lambda: G.GlobalHighOrderGrid(a=np.array([a]), b=np.array([b]), boundary=True, max_degree=5, do_nnls=True), 1, 'weights'),
+                 ('highorder-nosplit', lambda: G.GlobalHighOrderGrid(a=np.array([a]), b=np.array([b]), boundary=True, max_degree=5, split_up=False), 1, 'weights'),
+                 ('highorder-deg3', lambda: G.GlobalHighOrderGrid(a=np.array([a]), b=np.array([b]), boundary=True, max_degree=3), 1, 'weights'),
+                 ('highorder-deg2-nosplit', lambda: G.GlobalHighOrderGrid(a=np.array([a]), b=np.array([b]), boundary=True, max_degree=2, split_up=False), 1, 'weights'),
                  ('lagrange2', lambda: G.GlobalLagrangeGrid(a=np.array([a]), b=np.array([b]), boundary=True, p=2), 2, 'integrate'),
                  ('lagrange3', lambda: G.GlobalLagrangeGrid(a=np.array([a]), b=np.array([b]), boundary=True, p=3), 3, 'integrate'),
                  ('bspline3', lambda: G.GlobalBSplineGrid(a=np.array([a]), b=np.array([b]), boundary=True, p=3), 3, 'integrate'),
